@@ -56,7 +56,7 @@ var c08Targets = []string{
 
 // testdataPatches extracts patches and their input files from /repo/testdata (txtar) and /repo/examples.
 func testdataPatches() (patches []string, inputs [][]string) {
-	files, _ := filepath.Glob("/repo/testdata/*")
+	files, _ := filepath.Glob(core.RepoDir() + "/testdata/*")
 	sort.Strings(files)
 	for _, f := range files {
 		st, err := os.Stat(f)
@@ -100,7 +100,7 @@ func testdataPatches() (patches []string, inputs [][]string) {
 			inputs = append(inputs, ins)
 		}
 	}
-	ex, _ := filepath.Glob("/repo/examples/*.patch")
+	ex, _ := filepath.Glob(core.RepoDir() + "/examples/*.patch")
 	sort.Strings(ex)
 	for _, f := range ex {
 		if b, err := os.ReadFile(f); err == nil {
